@@ -3,6 +3,7 @@ CONSTANTS
   Vars <- MC_Vars3
   KindsAt <- MC_KindsAll3
   ICsAt <- MC_ICsAll3
+  LineOK <- MC_LineThorough
   ExoPaths <- MC_ExoPaths
   ConstVal = 5
   MinVars = 3
